@@ -42,10 +42,19 @@ SETTER = {"threshold": "set_fixed_threshold", "recurrence_rate": "set_fixed_recu
 
 
 def _via_setter(case):
-    """Every second case reaches its setting through the SETTER on an object that was constructed with
-    another setting (everything recurrent) - the matrix must be the one of the final setting."""
+    """0: the setting is given to the constructor.  1: it is reached through the SETTER on an object that was
+    constructed with another setting (everything recurrent).  2: there and back - constructed with the setting,
+    moved to the other setting through a setter, and brought back with the same setter call.  The matrix must be
+    the one of the final setting in every case."""
     import zlib
-    return zlib.crc32(case.encode()) % 2 == 1
+    return zlib.crc32(case.encode()) % 3
+
+
+def _there_and_back(obj, mode, val, other=1.0e6):
+    """History (construct with the setting) -> set_fixed_threshold(everything recurrent) -> the setting again."""
+    obj.set_fixed_threshold(other)
+    getattr(obj, SETTER[mode])(val)
+    return obj
 
 
 def _split_mode(kw):
@@ -57,7 +66,10 @@ def _split_mode(kw):
 def _obs_rp(cls, ts, kw, network, via=False):
     o = {"exc": "", "R": [], "N": 0, "rr": 0, "lines": {"exc": "", "diag": [], "vert": [], "white": []}}
     try:
-        if via:
+        if via == 2:
+            mode, val, rest = _split_mode(kw)
+            rp = _there_and_back(cls(ts, silence_level=3, **kw), mode, val)
+        elif via:
             mode, val, rest = _split_mode(kw)
             rp = cls(ts, silence_level=3, threshold=1.0e6, **rest)
             if mode == "adaptive_neighborhood_size" and hasattr(rp, "N"):
@@ -121,7 +133,10 @@ def _x(c):
         kwc.update(_mode_kw(c))
         if c["emb"]:
             kwc.update(dim=2, tau=int(c["ctau"]))
-        if _via_setter(c["case"]):
+        if _via_setter(c["case"]) == 2:
+            mode, val, rest = _split_mode(kwc)
+            crp = _there_and_back(CrossRecurrencePlot(x, y, silence_level=3, **kwc), mode, val)
+        elif _via_setter(c["case"]):
             mode, val, rest = _split_mode(kwc)
             crp = CrossRecurrencePlot(x, y, silence_level=3, threshold=1.0e6, **rest)
             getattr(crp, SETTER[mode])(val)
@@ -142,7 +157,13 @@ def _x(c):
         kwi.update(_mode_kw(c, triple=True))
         if c["emb"]:
             kwi.update(dim=2, tau=(int(c["taux"]), int(c["tauy"])))
-        if _via_setter(c["case"]):
+        if _via_setter(c["case"]) == 2:
+            # (the cross threshold alone is moved away and brought back)
+            mode, val, rest = _split_mode(kwi)
+            isrn = InterSystemRecurrenceNetwork(x, y, silence_level=3, **kwi)
+            getattr(isrn, SETTER[mode])((val[0], val[1], 1.0e6) if mode == "threshold" else (val[0], val[1], 1.0))
+            getattr(isrn, SETTER[mode])(val)
+        elif _via_setter(c["case"]):
             mode, val, rest = _split_mode(kwi)
             isrn = InterSystemRecurrenceNetwork(x, y, silence_level=3, threshold=(1.0e6, 1.0e6, 1.0e6), **rest)
             getattr(isrn, SETTER[mode])(val)
@@ -171,7 +192,12 @@ def _j(c):
         o = {"exc": "", "JR": [], "N": 0, "rr": 0, "adj": [],
              "lines": {"exc": "", "diag": [], "vert": [], "white": []}}
         try:
-            if _via_setter(c["case"]):
+            if _via_setter(c["case"]) == 2:
+                # (the y setting alone is moved away and brought back)
+                obj = cls(x, y, silence_level=3, **kw)
+                getattr(obj, SETTER[key])((kw[key][0], 1.0e6 if key == "threshold" else 1.0))
+                getattr(obj, SETTER[key])(kw[key])
+            elif _via_setter(c["case"]):
                 rest = {k: v for k, v in kw.items() if k != key}
                 obj = cls(x, y, silence_level=3, threshold=(1.0e6, 1.0e6), **rest)
                 getattr(obj, SETTER[key])(kw[key])
